@@ -65,6 +65,24 @@ func runSolver(ctx context.Context, sd solverDef, file string, timeoutS int) (st
 func solve(script, file string, timeoutS int, all bool, only []string) solveResult {
 	os.MkdirAll(filepath.Dir(file), 0o755)
 	os.WriteFile(file, []byte(script), 0o644)
+	if !all && len(only) == 0 {
+		// staged race (quick tier): the two solvers that decide almost everything first, the third
+		// only if neither answers
+		r := solveWith(file, timeoutS, false, []string{"z3-new", "cvc5"})
+		if r.status != "unknown" {
+			return r
+		}
+		r2 := solveWith(file, timeoutS, false, []string{"z3"})
+		if r2.status != "unknown" {
+			r2.secs += r.secs
+			return r2
+		}
+		return r
+	}
+	return solveWith(file, timeoutS, all, only)
+}
+
+func solveWith(file string, timeoutS int, all bool, only []string) solveResult {
 	start := time.Now()
 	ctx, cancel := context.WithCancel(context.Background())
 	defer cancel()
